@@ -334,6 +334,13 @@ PINNED = {
     ('pony/orm/dbapiprovider.py', 'TimedeltaConverter.validate'): "def validate(converter, val, obj=None):\n    if isinstance(val, timedelta):\n        pass\n    elif isinstance(val, str):\n        val = str2timedelta(val)\n    else:\n        throw(TypeError, \"Attribute %r: expected type is 'timedelta'. Got: %r\" % (converter.attr, val))\n    mcs = converter.round_microseconds_to_precision(val.microseconds, converter.precision)\n    if mcs is not None:\n        val = timedelta(val.days, val.seconds, mcs)\n    return val",
     ('pony/orm/dbapiprovider.py', 'UuidConverter.py2sql'): "def py2sql(converter, val):\n    return buffer(val.bytes)",
     ('pony/orm/dbapiprovider.py', 'DecimalConverter.sql2py'): "def sql2py(converter, val):\n    return Decimal(val)",
+    # how Json / array values become text (Model/C07Json.v models exactly these json.dumps arguments, and json.loads)
+    ('pony/orm/dbapiprovider.py', 'JsonConverter.val2dbval'): 'def val2dbval(converter, val, obj=None):\n    return json.dumps(val, cls=converter.JsonEncoder, **converter.json_kwargs)',
+    ('pony/orm/dbapiprovider.py', 'JsonConverter.dbval2val'): 'def dbval2val(converter, dbval, obj=None):\n    if isinstance(dbval, (int, bool, float, type(None))):\n        return dbval\n    val = json.loads(dbval)\n    if obj is None:\n        return val\n    return TrackedValue.make(obj, converter.attr, val)',
+    ('pony/orm/dbproviders/sqlite.py', 'SQLiteArrayConverter.val2dbval'): 'def val2dbval(converter, val, obj=None):\n    return dumps(val)',
+    ('pony/orm/dbproviders/sqlite.py', 'SQLiteArrayConverter.dbval2val'): 'def dbval2val(converter, dbval, obj=None):\n    if not dbval:\n        return None\n    items = json.loads(dbval)\n    if obj is None:\n        return items\n    return TrackedArray(obj, converter.attr, items)',
+    ('pony/orm/dbproviders/sqlite.py', 'dumps'): 'def dumps(items):\n    return json.dumps(items, **SQLiteJsonConverter.json_kwargs)',
+    ('pony/orm/dbproviders/sqlite.py', 'SQLiteJsonConverter'): "class SQLiteJsonConverter(dbapiprovider.JsonConverter):\n    json_kwargs = {'separators': (',', ':'), 'sort_keys': True, 'ensure_ascii': False}",
 }
 
 
@@ -407,14 +414,17 @@ def gen_tracked_validate():
     rel = 'pony/orm/dbapiprovider.py'
     fdef, src, lineno = load(rel, 'JsonConverter.validate')
     body = body_of(fdef)
+    UNWRAP = 'if isinstance(val, Json):\n    val = val.wrapped'
+    unwrap = len(body) == 4 and ast.unparse(body[1]) == UNWRAP
+    if unwrap: body = [body[0]] + body[2:]
     expect(len(body) == 3 and ast.unparse(body[0]) == 'if obj is None or converter.attr is None:\n    return val'
            and isinstance(body[1], ast.If) and not body[1].orelse and [ast.unparse(x) for x in body[1].body] == ['return val']
            and ast.unparse(body[2]) == 'return TrackedValue.make(obj, converter.attr, val)', 'JsonConverter.validate: statement structure changed')
-    out = ('(* %s:%d JsonConverter.validate for a bound attribute (obj and converter.attr not None): the value is kept as is under the condition read from the source, '
+    out = ('(* %s:%d JsonConverter.validate for a bound attribute (obj and converter.attr not None): %sthe value is kept as is under the condition read from the source, '
            'else re-wrapped as a tracked copy bound to (obj, attr) *)\n'
            'Definition json_keeps (obj attr : Z) (val : tval) : bool := %s.\n'
-           'Definition json_validate (obj attr : Z) (val : tval) : tval := if json_keeps obj attr val then val else TTracked obj attr (tv_payload val).\n'
-           % (rel, lineno, keep_condition(body[1].test, 'JsonConverter.validate')))
+           'Definition json_validate (obj attr : Z) (val0 : tval) : tval :=\n  let val := %s in if json_keeps obj attr val then val else TTracked obj attr (tv_payload val).\n'
+           % (rel, lineno, 'a Json(...) wrapper is removed first; ' if unwrap else '', keep_condition(body[1].test, 'JsonConverter.validate'), 'tv_unwrap val0' if unwrap else 'val0'))
     fdef, src, lineno = load(rel, 'ArrayConverter.validate')
     body = body_of(fdef)
     expect(len(body) >= 3 and isinstance(body[0], ast.If) and not body[0].orelse and [ast.unparse(x) for x in body[0].body] == ['return val']
@@ -425,6 +435,29 @@ def gen_tracked_validate():
             'Definition array_validate (obj attr : Z) (val : tval) : tval := if array_keeps obj attr val then val else TTracked obj attr (tv_payload val).\n'
             % (rel, lineno, keep_condition(body[0].test, 'ArrayConverter.validate')))
     return out
+
+
+def gen_identity_converters():
+    """str / LongStr / bytes / int values are handed to the driver and back unchanged: Converter.py2sql / sql2py are `return val`,
+    StrConverter does not override them, IntConverter.sql2py is int(val), BlobConverter.sql2py keeps a bytes value."""
+    rel = 'pony/orm/dbapiprovider.py'
+    for q in ('Converter.py2sql', 'Converter.sql2py'):
+        fdef, _, _ = load(rel, q)
+        expect([ast.unparse(x) for x in body_of(fdef)] == ['return val'], '%s is no longer `return val`' % q)
+    cls, _, _ = load_function(rel, 'StrConverter')
+    expect(not [n for n in cls.body if isinstance(n, ast.FunctionDef) and n.name in ('py2sql', 'sql2py', 'val2dbval', 'dbval2val')], 'StrConverter now overrides a codec method')
+    cls, _, _ = load_function(rel, 'BlobConverter')
+    expect(not [n for n in cls.body if isinstance(n, ast.FunctionDef) and n.name in ('py2sql', 'val2dbval', 'dbval2val')], 'BlobConverter now overrides py2sql')
+    fdef, _, lb = load(rel, 'BlobConverter.sql2py')
+    expect(ast.unparse(fdef) == "def sql2py(converter, val):\n    if not isinstance(val, buffer):\n        try:\n            val = buffer(val)\n        except:\n            pass\n    return val",
+           'BlobConverter.sql2py changed')
+    fdef, _, li = load(rel, 'IntConverter.sql2py')
+    expect([ast.unparse(x) for x in body_of(fdef)] == ['return int(val)'], 'IntConverter.sql2py changed')
+    return ('(* %s: Converter.py2sql / sql2py are `return val`; StrConverter and BlobConverter.py2sql inherit them; BlobConverter.sql2py (line %d) returns a bytes value as is; '
+            'IntConverter.sql2py (line %d) is int(val) (templates) *)\n'
+            'Definition str_py2sql (s : str) : str := s.\nDefinition str_sql2py (s : str) : str := s.\n'
+            'Definition bytes_py2sql (b : list Z) : list Z := b.\nDefinition bytes_sql2py (b : list Z) : list Z := b.\n'
+            'Definition int_py2sql (z : Z) : Z := z.\nDefinition int_sql2py (z : Z) : Z := z.\n' % (rel, lb, li))
 
 
 def generate():
@@ -439,6 +472,7 @@ def generate():
     out.append(gen_sqlite_datetime())
     out.append(gen_tracked_validate())
     out.append(gen_other_providers())
+    out.append(gen_identity_converters())
     out.append(check_pinned())
     return '\n'.join(out)
 
